@@ -4,6 +4,7 @@ import (
 	"bytes"
 	"fmt"
 	"io"
+	"runtime"
 	"sync"
 
 	"github.com/cloudwego/gopkg/bufiox"
@@ -243,9 +244,21 @@ func monC16(c *drv.Ctx) {
 	defer thrift.SetSpanCache(false)
 	concurrent := func(cs *drv.Case) {
 		span := cs.Idx%3 != 2
+		procs := runtime.GOMAXPROCS(0)
+		if (cs.Idx/3)%2 == 1 {
+			runtime.GOMAXPROCS(1) // the allocator is switched on while the process has a single P; more are added later
+		}
 		thrift.SetSpanCache(span)
-		defer thrift.SetSpanCache(false)
-		c16Concurrent(cs, span)
+		if procs < 4 {
+			runtime.GOMAXPROCS(4)
+		} else {
+			runtime.GOMAXPROCS(procs)
+		}
+		defer func() {
+			thrift.SetSpanCache(false)
+			runtime.GOMAXPROCS(procs)
+		}()
+		c16Concurrent(cs, span, (cs.Idx/6)%2 == 1)
 	}
 	if c.Flavour == "race" && !c.Thorough() {
 		// quick tier: the race build is there for the one stage that has goroutines
@@ -364,7 +377,7 @@ func monC16(c *drv.Ctx) {
 
 	// (3a') several goroutines decode at the same time with the allocator on (it is shared by all of them): each
 	// keeps its values, overwrites its own byte slices in place, and finds them as it left them after the join
-	c.Stage("concurrent-decoders", c.Pick(6, 40), false, concurrent)
+	c.Stage("concurrent-decoders", c.Pick(12, 48), false, concurrent)
 
 	// (3a'') a stream reader that is in the middle of a value (its peer stalls, then delivers the rest or hangs up)
 	// while other readers decode complete values: what those got stays theirs, whether the stalled read then
@@ -585,7 +598,7 @@ func c16Long(cs *drv.Case, lo, hi, total int, span bool) {
 }
 
 // c16Concurrent: G goroutines decode values of the same few size classes at the same time.
-func c16Concurrent(cs *drv.Case, span bool) {
+func c16Concurrent(cs *drv.Case, span bool, stream bool) {
 	G := 3 + cs.R.Intn(6)
 	iters := 6000
 	if cs.C.Slow() {
@@ -626,6 +639,31 @@ func c16Concurrent(cs *drv.Case, span bool) {
 				l := cl[0] + r.Intn(cl[1]-cl[0]+1)
 				w := ref.U32(in[:0], uint32(l))[:4+l]
 				c16Val(w[4:], g+1, i)
+				if stream {
+					// through the stream reader (a reader per value, as for short-lived connections)
+					br := thrift.NewBufferReader(bufiox.NewBytesReader(w))
+					if i%3 != 0 {
+						b, err := br.ReadBinary()
+						br.Recycle()
+						if err != nil || len(b) != l || !c16ValIs(b, g+1, i, false) {
+							res[g].fail = fmt.Sprintf("BufferReader.ReadBinary #%d returned other bytes than its input (err=%v)", i, err)
+							return
+						}
+						for j := range b {
+							b[j] ^= 0xFF
+						}
+						res[g].ks = append(res[g].ks, kept{b: b, i: i})
+					} else {
+						s, err := br.ReadString()
+						br.Recycle()
+						if err != nil || len(s) != l || !c16ValIs([]byte(s), g+1, i, false) {
+							res[g].fail = fmt.Sprintf("BufferReader.ReadString #%d returned other bytes than its input (err=%v)", i, err)
+							return
+						}
+						res[g].ks = append(res[g].ks, kept{s: s, i: i})
+					}
+					continue
+				}
 				if i%3 != 0 {
 					b, _, err := thrift.Binary.ReadBinary(w)
 					if err != nil || len(b) != l || !c16ValIs(b, g+1, i, false) {
@@ -670,8 +708,8 @@ func c16Concurrent(cs *drv.Case, span bool) {
 			n++
 		}
 	}
-	cs.Desc = M{"span_cache": span, "goroutines": G, "values_each": iters, "lengths": fmt.Sprint(cl)}
-	cs.Count(true, "conc", span, G, cl, cs.Idx)
+	cs.Desc = M{"span_cache": span, "goroutines": G, "values_each": iters, "lengths": fmt.Sprint(cl), "through_stream_readers": stream}
+	cs.Count(true, "conc", span, G, cl, cs.Idx, stream)
 	cs.C.Obs("values decoded concurrently and re-checked after the join", int64(n))
 }
 
